@@ -20,6 +20,9 @@ import re
 from . import rustlex
 from .rustlex import ExtractError
 from . import rules as rulesmod
+from . import alpha
+
+ALPHA_RECORD = None
 
 VERIF = os.path.dirname(os.path.dirname(os.path.abspath(__file__)))
 REPO = os.environ.get('VX_REPO', '/repo')
@@ -373,6 +376,14 @@ def gen_fn(fs, cfg, log, vac=False):
                 if ro != so and ro not in spec_p and not ro.startswith('_') and re.match(r'^\w+$', ro) and re.match(r'^\w+$', so):
                     body, k = re.subn(r'(?<![\w.])%s\b' % re.escape(ro), so, body)
                     log.append(dict(where=where, rule='N5b_param_rename %s->%s' % (ro, so), matches=k, required=None))
+    # N5c: local binding names aligned with the pinned baseline (vx/alpha.py): a renamed local is renamed back
+    akey = '%s|%s|%s' % (fs.file, fs.impl_re or '', fs.name)
+    if ALPHA_RECORD is not None:
+        ALPHA_RECORD[akey] = alpha.bindings(body)
+    else:
+        body, renamed = alpha.align(body, alpha.baseline(akey))
+        for (ro, so, k) in renamed:
+            log.append(dict(where=where, rule='N5c_local_rename %s->%s' % (ro, so), matches=k, required=None))
     # N2: drop attributes inside bodies (#[allow(..)] on statements)
     body = re.sub(r'#\[allow\([^\]]*\)\]\s*', '', body)
     body = apply_rules(body, fs, log, where)
